@@ -1,8 +1,146 @@
-/- Driver handler of C08: protocol line (already split into tokens, without the leading "c08") -> answer. -/
+/-
+  Driver handler of C08: one line = one workbook + pre-trim history + trim + rounds of assignments.
+
+    c08 <n> <spec>*n  <kI> i*kI  <kO> o*kO  <kP> <op>*kP  <kR> (<m> (i <val>)*m)*kR
+      spec : as in Drv/C01 (I <val> | F ref j | F cat k j*k | F add a b | F sum k j*k | F cnt k j*k | F idx r row col
+             | R <rows> <cols> j*(rows*cols))
+      op   : S i <val> | E i          (history before the trim, on the in-memory model without stored results)
+  Answer, sections joined by ';':
+      ok | err:input | err:output
+      K<kept nodes, comma separated>           = set(cell_map) after the trim
+      Z<formula cells that lost their formula>
+      one section per round:  <ok|rej>*m ~ <value of every output on the trimmed model>* ~ L ~ <value of every output
+      on the model reloaded from the saved trimmed model>*      (items joined by '~')
+  The rounds are cumulative (each applies its writes to the state the previous one left).  Writes use the repaired
+  equality test `typedEq`.  Trusted glue, not part of any theorem.
+-/
 import Pycel.Model.Proto
+import Pycel.Model.EngineInst
+import Pycel.Model.Trim
 namespace Pycel.Drv.C08
+open Pycel Pycel.Engine Pycel.EngineInst Pycel.Trim
+
+partial def takeNats : Nat → List String → Option (List Nat × List String)
+  | 0, ts => some ([], ts)
+  | k+1, t :: ts => do
+    let j ← t.toNat?
+    let (js, rest) ← takeNats k ts
+    some (j :: js, rest)
+  | _, [] => none
+
+partial def parseSpecs : Nat → List String → Option (List Spec × List String)
+  | 0, ts => some ([], ts)
+  | k+1, ts => do
+    let (sp, rest) ← (match ts with
+      | "I" :: v :: rest => do some (Spec.inp (← Val.dec? v), rest)
+      | "F" :: "ref" :: j :: rest => do some (Spec.fml (.ref (← j.toNat?)), rest)
+      | "F" :: "add" :: a :: b :: rest => do some (Spec.fml (.add (← a.toNat?) (← b.toNat?)), rest)
+      | "F" :: "idx" :: r :: row :: col :: rest => do
+          some (Spec.fml (.idx (← r.toNat?) (← row.toNat?) (← col.toNat?)), rest)
+      | "F" :: "cat" :: k :: rest => do
+          let (js, rest) ← takeNats (← k.toNat?) rest
+          some (Spec.fml (.cat js), rest)
+      | "F" :: "sum" :: k :: rest => do
+          let (js, rest) ← takeNats (← k.toNat?) rest
+          some (Spec.fml (.sum js), rest)
+      | "F" :: "cnt" :: k :: rest => do
+          let (js, rest) ← takeNats (← k.toNat?) rest
+          some (Spec.fml (.cnt js), rest)
+      | "R" :: r :: c :: rest => do
+          let r ← r.toNat?
+          let c ← c.toNat?
+          let (js, rest) ← takeNats (r*c) rest
+          some (Spec.rng (chunk c r js), rest)
+      | _ => none : Option (Spec × List String))
+    let (sps, rest) ← parseSpecs k rest
+    some (sp :: sps, rest)
+
+partial def parseOps : Nat → List String → Option (List (Op EV) × List String)
+  | 0, ts => some ([], ts)
+  | k+1, "S" :: i :: v :: rest => do
+    let (ops, rest) ← parseOps k rest
+    some (.set (← i.toNat?) (.sc (← Val.dec? v)) :: ops, rest)
+  | k+1, "E" :: a :: rest => do
+    let (ops, rest) ← parseOps k rest
+    some (.eval (← a.toNat?) :: ops, rest)
+  | _, _ => none
+
+partial def parseWrites : Nat → List String → Option (List (Nat × EV) × List String)
+  | 0, ts => some ([], ts)
+  | k+1, i :: v :: rest => do
+    let (ws, rest) ← parseWrites k rest
+    some ((← i.toNat?, .sc (← Val.dec? v)) :: ws, rest)
+  | _, _ => none
+
+partial def parseRounds : Nat → List String → Option (List (List (Nat × EV)))
+  | 0, [] => some []
+  | 0, _ => none
+  | k+1, m :: rest => do
+    let (ws, rest) ← parseWrites (← m.toNat?) rest
+    let rs ← parseRounds k rest
+    some (ws :: rs)
+  | _, _ => none
+
+def encEV : EV → String
+  | .sc v => v.enc
+  | .arr rows => encArr rows
+
+def natList (l : List Nat) : String := ",".intercalate (l.map toString)
+
+/-- apply the writes (answer ok/rej each), then evaluate every output in order -/
+def roundOn (wb : Workbook) (f : Nat → (Nat → EV) → EV) (O : List Nat) (ws : List (Nat × EV)) (s : State EV) :
+    List String × List String × State EV :=
+  let (acks, s1) := ws.foldl (fun (acc : List String × State EV) (w : Nat × EV) =>
+      let st := acc.2
+      let ok := decide (w.1 < wb.n) && decide (wb.kind w.1 = .input) && st.built w.1
+      (acc.1 ++ [if ok then "ok" else "rej"], setValue wb typedEq w.1 w.2 st)) ([], s)
+  let (vals, s2) := O.foldl (fun (acc : List String × State EV) (o : Nat) =>
+      let r := evaluate wb f o acc.2
+      (acc.1 ++ [encEV r.1], r.2)) ([], s1)
+  (acks, vals, s2)
+
+def runRounds (t : Trimmed EV) (wbR : Workbook) (O : List Nat) :
+    List (List (Nat × EV)) → State EV → State EV → List String
+  | [], _, _ => []
+  | ws :: rest, st, sl =>
+    let (acks, vals, st') := roundOn t.wb t.f O ws st
+    let (_, valsL, sl') := roundOn wbR t.f O ws sl
+    "~".intercalate (acks ++ vals ++ ["L"] ++ valsL) :: runRounds t wbR O rest st' sl'
 
 def handle : List String → String
+  | "c08" :: n :: rest =>
+    match n.toNat? with
+    | none => "!bad-n"
+    | some n =>
+      match parseSpecs n rest with
+      | none => "!bad-spec"
+      | some (specs, rest) =>
+        let parsed : Option (List Nat × List Nat × List (Op EV) × List (List (Nat × EV))) := do
+          let (kI, rest) ← (match rest with | k :: r => do some (← k.toNat?, r) | [] => none)
+          let (I, rest) ← takeNats kI rest
+          let (kO, rest) ← (match rest with | k :: r => do some (← k.toNat?, r) | [] => none)
+          let (O, rest) ← takeNats kO rest
+          let (kP, rest) ← (match rest with | k :: r => do some (← k.toNat?, r) | [] => none)
+          let (pre, rest) ← parseOps kP rest
+          let (kR, rest) ← (match rest with | k :: r => do some (← k.toNat?, r) | [] => none)
+          let rounds ← parseRounds kR rest
+          some (I, O, pre, rounds)
+        match parsed with
+        | none => "!bad-tail"
+        | some (I, O, pre, rounds) =>
+          if !wfCheck specs then "!notwf" else
+          let wb := mkWb specs
+          let f := sem specs
+          let s := run wb f typedEq (initNoData (inputsOf specs)) pre
+          match trim wb f I O s with
+          | .error (.inputUnused _) => "err:input"
+          | .error (.outputUnknown _) => "err:output"
+          | .ok t =>
+            let keep := (List.range wb.n).filter t.keep
+            let lost := (List.range wb.n).filter fun k => t.frozen k && decide (wb.kind k = .formula)
+            let wbR := reloadWb wb t
+            let sl := initLoaded wbR t.f (reloadInp wb (.sc .blank) t)
+            ";".intercalate (["ok", "K" ++ natList keep, "Z" ++ natList lost] ++ runRounds t wbR O rounds t.st sl)
   | _ => "!bad-op"
 
 end Pycel.Drv.C08
